@@ -1,3 +1,8 @@
 //! Shared machinery of the verification harness (runner, journaling, helpers).
 pub mod runner;
 pub mod util;
+
+/// Oracles of the properties served by the `vh` binary (also used by the libFuzzer targets).
+pub mod c10;
+pub mod c11;
+pub mod c17;
